@@ -69,6 +69,40 @@ void vp_activator()
     vp_assert(g_tv->isActive(), 1114);
     vp_cover(vp_tid() - 1);
 }
+// ---- scenario (iv): inactive in setup; one activation races with a triggerer that retries after the activation,
+//      a waiter that waits for the activation and then for the trigger (no re-activation, no reset)
+void vp_act_then_wait()
+{
+    g_tv->waitActivation();
+    bool r = g_tv->wait();                          // a trigger() succeeded or will succeed: must return
+    vp_assert(r, 1140);
+    vp_assert(g_tv->isTriggered() || vp_g(G_TRIG_DONE) == 0, 1141);
+    vp_cover(vp_tid() - 1);
+}
+void vp_trigger_retry()
+{
+    vp_gadd(G_TRIG_BEGUN, 1);
+    bool ok = g_tv->trigger();
+    if (!ok) {
+        g_tv->waitActivation();
+        ok = g_tv->trigger();
+        vp_assert(ok, 1142);                        // active and never reset: trigger succeeds
+    }
+    vp_gadd(G_TRIG_DONE, 1);
+    vp_cover(vp_tid() - 1);
+}
+void vp_activator_once()
+{
+    vp_gadd(G_ACT_BEGUN, 1);
+    g_tv->activate();
+    vp_gadd(G_ACT_DONE, 1);
+    vp_cover(vp_tid() - 1);
+}
+void vp_final_triggered()
+{
+    // a trigger() returned true after the only activation: the variable is triggered for good
+    vp_assert(g_tv->isActive() && g_tv->isTriggered(), 1143);
+}
 // ---- scenario (iii): sequential facts
 void vp_seq_inactive()
 {
